@@ -134,7 +134,21 @@ def audit(modules, timeout=1800):
     return names, res, out
 
 
-def proof_stage(modules, extra_targets=("sdmodel",)):
+def leanchecker(modules, timeout=1500):
+    """Thorough tier: replay the compiled declarations of the property's modules (and everything they import)
+    through `leanchecker`, the toolchain's independent re-checker of .olean files.  Returns (ok, tail of output, wall)."""
+    t0 = time.time()
+    try:
+        p = subprocess.run(["lake", "env", "leanchecker"] + list(modules), cwd=LEAN, stdout=subprocess.PIPE,
+                           stderr=subprocess.STDOUT, text=True, timeout=timeout)
+        return p.returncode == 0, p.stdout[-1500:], time.time() - t0
+    except subprocess.TimeoutExpired:
+        return None, "leanchecker timed out", time.time() - t0
+    except OSError as e:
+        return None, f"leanchecker not runnable: {e}", time.time() - t0
+
+
+def proof_stage(modules, extra_targets=("sdmodel",), recheck=False):
     """Returns dict(ok, obligations, discharged, detail, broken, wall)."""
     t0 = time.time()
     info = {"ok": True, "broken": [], "detail": [], "axioms": {}}
@@ -172,6 +186,15 @@ def proof_stage(modules, extra_targets=("sdmodel",)):
             info["detail"].append(f"{n}: axioms {ax}")
     if info["broken"]:
         info["ok"] = False
+    if recheck and ok:
+        rok, rout, rwall = leanchecker(modules)
+        info["leanchecker"] = {"ok": rok, "wall": round(rwall, 1), "modules": list(modules)}
+        if rok is False:
+            info["ok"] = False
+            info["broken"].append("leanchecker")
+            info["detail"].append("leanchecker rejected the compiled modules: " + rout[-600:])
+        elif rok is None:
+            info["detail"].append(rout)      # not runnable / timed out: recorded, not a broken proof
     info["obligations"] = len(names)
     info["discharged"] = discharged
     info["theorems"] = names
